@@ -18,6 +18,7 @@ from vlib import sqlo
 
 PROP = 'C20'
 KEY_FAILED = 'C20:failed-update-appends-version'
+KEY_RESTORE_CONN = 'C20:restore-ignores-explicit-connection'
 META = {
     'extractors': [],
     'technique': ('Lean 4 proof (history invariant by induction over the operation list; per-step frame lemma for '
@@ -32,14 +33,21 @@ META = {
     'level_note': ('Trusted: Lean kernel; the sampling correspondence; SQLite returns `obj.versions` (no ORDER BY) in id order. '
                    'dateArchived is abstracted to the insertion sequence (version id).'),
     'rule': ('cases = (unique first column or not, history of <= 20 ops create/assign/set/restore over <= 4 masters of a fresh '
-             'versioned class with 3 int columns, incl. rejected values, unknown keywords, UNIQUE violations, empty set()); '
+             'versioned class with 3 int columns, incl. rejected values, unknown keywords, UNIQUE violations, empty set(); '
+             'connection mode: caching / cache=False / two databases with masters made through connection= / every master '
+             'bound to a transaction of a file database, checked again after commit; masters are constructor-made and held; '
+             'restore is followed by an update of the same master in most cases); '
              'distinct = distinct request line; non-trivial = at least two versions exist at the end'),
     'trusted': ['SQLite returns the rows of `SELECT … WHERE master_id = ?` in rowid order'],
     'modelled': ['validation abstracted to {int, None, rejected value}; UPDATE rejection modelled by a UNIQUE first column',
                  'versioned inheritable classes and extraCols are outside the model',
                  'destroying a master is not part of the quantifier (create/assign/set/restore)'],
     'assumptions': ['the theorem versions_are_history holds for histories without a failing update only: the code snapshots on '
-                    'the before-event (known finding ' + KEY_FAILED + ')'],
+                    'the before-event (known finding ' + KEY_FAILED + ')',
+                    'per-connection theorem: every restore is on the default database; Version.restore() fetches the master '
+                    'through the default connection (known finding ' + KEY_RESTORE_CONN + ')',
+                    'one live instance per row and connection (the identity map, C04); the cache=False stream checks that the '
+                    'held master shows the row after every step'],
     'exhaustive': False,
 }
 
@@ -53,8 +61,20 @@ def env():
     if _env:
         return _env
     sqlo.setup()
-    _env['conn'] = sqlo.mem_conn()
+    import atexit
+    import shutil
+    import tempfile
+    _env['mem'] = sqlo.mem_conn()                 # default: caching connection
+    _env['nocache'] = sqlo.mem_conn(cache=False)  # cache=False: only weak references to held instances
+    _env['other'] = sqlo.mem_conn()               # a second database, reached through connection= only
+    d = tempfile.mkdtemp(prefix='verif_c20_')
+    atexit.register(shutil.rmtree, d, True)
+    _env['file'] = sqlo.file_conn(os.path.join(d, 'tx.db'))   # transactions need a database two connections share
+    _env['file'].query('PRAGMA synchronous=OFF')
     return _env
+
+
+MODES = ('mem', 'nocache', 'twodb', 'tx')
 
 
 def enc_val(v):
@@ -80,33 +100,50 @@ def enc_op(op):
     return 'R %d' % op[1]
 
 
+def mode_of(case):
+    return case.get('mode', 'mem')
+
+
 def line_of(case):
+    if mode_of(case) == 'twodb':
+        return 'W %d %s %d | %s' % (NCOLS, ','.join(enc_val(v) for v in DEFAULTS), 1 if case['uniq0'] else 0,
+                                    ' ; '.join('@%d %s' % (d, enc_op(op)) for d, op in case['ops']))
     return 'V %d %s %d | %s' % (NCOLS, ','.join(enc_val(v) for v in DEFAULTS), 1 if case['uniq0'] else 0,
                                 ' ; '.join(enc_op(op) for op in case['ops']))
 
 
+def norm_op(op):
+    op = list(op)
+    if op[0] == 'C':
+        return ('C', tuple(tuple(x) for x in op[1]))
+    if op[0] == 'S':
+        return ('S', op[1], tuple(tuple(x) for x in op[2]))
+    return tuple(op)
+
+
 def norm_case(case):
-    ops = []
-    for op in case['ops']:
-        op = list(op)
-        if op[0] == 'C':
-            ops.append(('C', tuple(tuple(x) for x in op[1])))
-        elif op[0] == 'S':
-            ops.append(('S', op[1], tuple(tuple(x) for x in op[2])))
-        else:
-            ops.append(tuple(op))
-    return {'uniq0': bool(case['uniq0']), 'ops': ops}
+    mode = case.get('mode', 'W' if case.get('kind') == 'W' else 'mem')
+    if mode == 'W':
+        mode = 'twodb'
+    if mode == 'twodb':
+        ops = [(d, norm_op(op)) for d, op in case['ops']]
+    else:
+        ops = [norm_op(op) for op in case['ops']]
+    return {'mode': mode, 'uniq0': bool(case.get('uniq0', False)), 'ops': ops, 'nomodel': bool(case.get('nomodel', False))}
 
 
 def colname(k):
     return 'c%d' % k if k < NCOLS else 'zz%d' % k
 
 
-def make_class(uniq0):
+def make_class(uniq0, mode):
+    """returns (class, [connection of database 0, connection of database 1 or None], transaction or None)"""
     from sqlobject import SQLObject, IntCol
     from sqlobject.versioning import Versioning
+    e = env()
+    base = {'mem': e['mem'], 'nocache': e['nocache'], 'twodb': e['mem'], 'tx': e['file']}[mode]
     name = sqlo.uniq('C20M')
-    attrs = {'_connection': env()['conn'], 'versions': Versioning()}
+    attrs = {'_connection': base, 'versions': Versioning()}
     for k in range(NCOLS):
         kw = {'default': DEFAULTS[k], 'dbName': colname(k)}
         if k == 0 and uniq0:
@@ -118,7 +155,15 @@ def make_class(uniq0):
     attrs['sqlmeta'] = sqlmeta
     cls = type(name, (SQLObject,), attrs)
     cls.createTable()
-    return cls
+    conns = [base, None]
+    trans = None
+    if mode == 'twodb':
+        cls.createTable(connection=e['other'])
+        conns[1] = e['other']
+    if mode == 'tx':
+        trans = base.transaction()
+        conns[0] = trans          # every master of the case is bound to the transaction
+    return cls, conns, trans
 
 
 def exc_out(e):
@@ -130,8 +175,7 @@ def exc_out(e):
     return n
 
 
-def tables(cls):
-    conn = cls._connection
+def tables(cls, conn):
     cols = ', '.join(colname(k) for k in range(NCOLS))
     m = conn.queryAll('SELECT id, %s FROM %s ORDER BY id' % (cols, cls.sqlmeta.table))
     vcls = cls.versions.versionClass
@@ -146,83 +190,136 @@ def fmt_state(m, v):
 
 
 def run_case(case, oracle=None):
-    """returns list of (out, masters, versions) per op; calls oracle(kind, what, n) on failures"""
-    cls = make_class(case['uniq0'])
+    """returns list of (out, state per database) per op; calls oracle(key, what, n) on failures.
+    Every master is made by the constructor and stays referenced by the harness (`objs`)."""
+    mode = mode_of(case)
+    cls, conns, trans = make_class(case['uniq0'], mode)
     vcls = cls.versions.versionClass
-    objs = {}
-    hist = {}        # master id -> list of successive row states (harness-side; only successful operations append)
+    explicit = (mode in ('twodb', 'tx'))
+    objs = {}        # (db, id) -> instance
+    hist = {}        # (db, id) -> successive row states (harness-side; only successful operations append)
     results = []
-    for n, op in enumerate(case['ops']):
-        out = 'ok'
-        k = op[0]
-        target = None
-        restored = None
-        try:
-            if k == 'C':
-                o = cls(**{colname(kk): v for kk, v in op[1]})
-                objs[o.id] = o
-                target = o.id
-            elif k == 'A':
-                if op[1] not in objs or op[2] >= NCOLS:
-                    out = 'nohandle'
+    ndb = 2 if mode == 'twodb' else 1
+
+    def kwconn(d):
+        # database 0 of the plain modes is the class's own connection: no connection= argument at all
+        return {'connection': conns[d]} if (explicit and (d == 1 or mode == 'tx')) else {}
+
+    def check_history(n, what):
+        rows = [dict(tables(cls, conns[d])[0]) for d in range(ndb)]
+        for (d, mid), o in sorted(objs.items()):
+            vs = list(o.versions)
+            got = [[getattr(ver, colname(c)) for c in range(NCOLS)] for ver in vs] + [rows[d].get(mid)]
+            shown = [getattr(o, colname(c)) for c in range(NCOLS)]
+            yield (d, mid), got, shown, [ver.id for ver in vs if ver.masterID != mid]
+
+    try:
+        for n, item in enumerate(case['ops']):
+            d, op = item if mode == 'twodb' else (0, item)
+            out = 'ok'
+            k = op[0]
+            target = None
+            restored = None
+            try:
+                if k == 'C':
+                    kw = {colname(kk): v for kk, v in op[1]}
+                    kw.update(kwconn(d))
+                    o = cls(**kw)
+                    objs[(d, o.id)] = o
+                    target = (d, o.id)
+                elif k == 'A':
+                    if (d, op[1]) not in objs or op[2] >= NCOLS:
+                        out = 'nohandle'
+                    else:
+                        target = (d, op[1])
+                        setattr(objs[target], colname(op[2]), op[3])
+                elif k == 'S':
+                    if (d, op[1]) not in objs:
+                        out = 'nohandle'
+                    else:
+                        target = (d, op[1])
+                        objs[target].set(**{colname(kk): v for kk, v in op[2]})
                 else:
-                    target = op[1]
-                    setattr(objs[op[1]], colname(op[2]), op[3])
-            elif k == 'S':
-                if op[1] not in objs:
-                    out = 'nohandle'
+                    try:
+                        ver = vcls.get(op[1], **kwconn(d))
+                    except Exception as ex:
+                        if exc_out(ex) != 'NotFound':
+                            raise
+                        ver = None
+                    if ver is None:
+                        out = 'nohandle'
+                    else:
+                        target = (d, ver.masterID)
+                        restored = [getattr(ver, colname(c)) for c in range(NCOLS)]
+                        try:
+                            ver.restore()
+                        except Exception as ex:
+                            if exc_out(ex) != 'NotFound':
+                                raise
+                            out = 'nohandle'      # the master could not be fetched
+            except Exception as ex:
+                out = exc_out(ex)
+            states = [tables(cls, conns[dd]) for dd in range(ndb)]
+            results.append((out, states))
+            if oracle is None:
+                continue
+            rows = dict(states[d][0])
+            resync = False
+            if k == 'R' and restored is not None and target in objs and (out != 'ok' or rows.get(target[1]) != restored):
+                if kwconn(d):
+                    oracle(KEY_RESTORE_CONN, 'restore of a version of master %d bound to an explicit connection (%s): '
+                           'outcome %s, its row is %s, the version held %s' % (target[1], mode, out, rows.get(target[1]), restored), n)
+                    resync = True
+                elif out == 'ok':
+                    oracle('C20:restore-not-equal-version', 'after restore the master row is %s, the version held %s'
+                           % (rows.get(target[1]), restored), n)
+            if out == 'ok' and target is not None and not resync:
+                if k == 'C':
+                    hist[target] = [rows[target[1]]]
                 else:
-                    target = op[1]
-                    objs[op[1]].set(**{colname(kk): v for kk, v in op[2]})
-            else:
-                try:
-                    ver = vcls.get(op[1])
-                except Exception as ex:
-                    if exc_out(ex) != 'NotFound':
-                        raise
-                    ver = None
-                if ver is None:
-                    out = 'nohandle'
-                else:
-                    target = ver.masterID
-                    restored = [getattr(ver, colname(c)) for c in range(NCOLS)]
-                    ver.restore()
-        except Exception as ex:
-            out = exc_out(ex)
-        m, v = tables(cls)
-        results.append((out, m, v))
-        if oracle is None:
-            continue
-        rows = dict(m)
-        if out == 'ok' and target is not None:
-            if k == 'C':
-                hist[target] = [rows[target]]
-            else:
-                hist[target].append(rows[target])
-            if restored is not None and rows[target] != restored:
-                oracle('C20:restore-not-equal-version', 'after restore the master row is %s, the version held %s'
-                       % (rows[target], restored), n)
-        # the property's check, through the public API, for every master after every step
-        for mid, o in sorted(objs.items()):
-            got = [[getattr(ver, colname(c)) for c in range(NCOLS)] for ver in o.versions] + [rows[mid]]
-            if got != hist[mid]:
-                failed_update = (k != 'C' and out in ('Invalid', 'TypeError', 'Duplicate') and target == mid
-                                 and got[:-2] + got[-1:] == hist[mid] and got[-2] == got[-1])
-                if failed_update:
-                    oracle(KEY_FAILED, 'the failed update %s (%s) left a version: versions+current = %s, history of '
-                           'successful states = %s' % (enc_op(op), out, got, hist[mid]), n)
-                else:
-                    oracle('C20:versions-not-history', 'master %d: versions+current = %s, history = %s (op %s -> %s)'
-                           % (mid, got, hist[mid], enc_op(op), out), n)
-                hist[mid] = got      # resynchronise so that later steps are still checked
-            foreign = [ver.id for ver in o.versions if ver.masterID != mid]
-            if foreign:
-                oracle('C20:masters-mix', 'master %d lists versions %s of another master' % (mid, foreign), n)
+                    hist[target].append(rows[target[1]])
+            # the property's check, through the public API, for every held master after every step
+            for key, got, shown, foreign in check_history(n, op):
+                if resync:
+                    hist[key] = got
+                    continue
+                if got != hist[key]:
+                    failed_update = (k != 'C' and out in ('Invalid', 'TypeError', 'Duplicate') and target == key
+                                     and got[:-2] + got[-1:] == hist[key] and got[-2] == got[-1])
+                    if failed_update:
+                        oracle(KEY_FAILED, 'the failed update %s (%s) left a version: versions+current = %s, history of '
+                               'successful states = %s' % (enc_op(op), out, got, hist[key]), n)
+                    else:
+                        oracle('C20:versions-not-history', 'master %s (mode %s): versions+current = %s, history = %s (op %s -> %s)'
+                               % (key, mode, got, hist[key], enc_op(op), out), n)
+                    hist[key] = got      # resynchronise so that later steps are still checked
+                elif shown != got[-1]:
+                    oracle('C20:held-master-stale', 'master %s (mode %s): the held instance shows %s, its row is %s (op %s -> %s)'
+                           % (key, mode, shown, got[-1], enc_op(op), out), n)
+                if foreign:
+                    oracle('C20:masters-mix', 'master %s lists versions %s of another master' % (key, foreign), n)
+        if trans is not None:
+            trans.commit(close=True)
+            trans = None
+            # after the commit the default connection shows the same histories
+            rows = dict(tables(cls, cls._connection)[0])
+            for (d, mid) in sorted(objs):
+                o = cls.get(mid)
+                got = [[getattr(ver, colname(c)) for c in range(NCOLS)] for ver in o.versions] + [rows.get(mid)]
+                if oracle is not None and got != hist[(d, mid)]:
+                    oracle('C20:versions-not-history', 'after commit master %d: versions+current = %s, history = %s'
+                           % (mid, got, hist[(d, mid)]), len(case['ops']))
+    finally:
+        if trans is not None:
+            try:
+                trans.rollback()
+            except Exception:
+                pass
     return results
 
 
 def fmt_results(results):
-    return ' ; '.join('%s # %s' % (out, fmt_state(m, v)) for out, m, v in results)
+    return ' ; '.join('%s # %s' % (out, ' ## '.join(fmt_state(m, v) for m, v in states)) for out, states in results)
 
 
 # ----------------------------------------------------------------------------- generator
@@ -244,33 +341,51 @@ def gen_kw(rng, bad=0.05):
     return tuple(kw)
 
 
-def gen_case(rng, clean):
-    """clean: no failing update on purpose (the theorem's hypothesis); otherwise the full mix"""
+def gen_case(rng, clean, mode='mem'):
+    """clean: no failing update on purpose (the theorem's hypothesis); otherwise the full mix.
+    mode: 'mem' | 'nocache' (cache=False connection) | 'twodb' (masters of database 1 are made with connection=)
+    | 'tx' (every master is bound to a transaction of a file database)"""
     uniq0 = (not clean) and rng.random() < 0.5
     bad = 0.0 if clean else 0.07
-    ops = [('C', ((0, rng.randint(20, 40)),))]
-    nm = 1
-    nv = 0
-    for _ in range(rng.randint(3, 20)):
+    ndb = 2 if mode == 'twodb' else 1
+    first = 20
+    ops = []
+    nm = [0] * ndb
+    nv = [0] * ndb
+    for d in range(ndb):
+        ops.append((d, ('C', ((0, first + d),))))
+        nm[d] = 1
+    for _ in range(rng.randint(3, 12 if mode == 'tx' else 20)):
         r = rng.random()
-        m = rng.randint(1, nm) if rng.random() < 0.96 else nm + 1
-        if r < 0.12 and nm < 4:
+        d = rng.randint(0, ndb - 1)
+        m = rng.randint(1, nm[d]) if rng.random() < 0.96 else nm[d] + 1
+        if r < 0.12 and nm[d] < 4:
             kw = [(k, v) for k, v in gen_kw(rng, bad) if k != 0 and (k < NCOLS or not clean)]
-            ops.append(('C', tuple([(0, 41 + nm)] + kw)))
-            nm += 1
+            ops.append((d, ('C', tuple([(0, 41 + 10 * d + nm[d])] + kw))))
+            nm[d] += 1
         elif r < 0.50:
-            ops.append(('A', m, rng.randint(0, NCOLS - 1), gen_val(rng, bad)))
-            nv += 1
+            ops.append((d, ('A', m, rng.randint(0, NCOLS - 1), gen_val(rng, bad))))
+            nv[d] += 1
         elif r < 0.80:
             kw = gen_kw(rng, bad)
             if clean:
                 kw = tuple((k, v) for k, v in kw if k < NCOLS)
-            ops.append(('S', m, kw))
-            nv += 1
+            ops.append((d, ('S', m, kw)))
+            nv[d] += 1
+        elif mode == 'tx' or d != 0:
+            # restore() of a master bound to an explicit connection: known finding, replayed by its own witness
+            ops.append((d, ('A', m, rng.randint(0, NCOLS - 1), gen_val(rng, bad))))
+            nv[d] += 1
         else:
-            ops.append(('R', rng.randint(1, max(1, nv)) if rng.random() < 0.95 else nv + 3))
-            nv += 1
-    return {'uniq0': uniq0, 'ops': ops}
+            ops.append((d, ('R', rng.randint(1, max(1, nv[d])) if rng.random() < 0.95 else nv[d] + 3)))
+            nv[d] += 1
+            if rng.random() < 0.7:
+                # "held master, restore, then update": the next update must archive the restored values
+                ops.append((d, ('A', m, rng.randint(0, NCOLS - 1), gen_val(rng, bad))))
+                nv[d] += 1
+    if mode != 'twodb':
+        ops = [op for _, op in ops]
+    return {'mode': mode, 'uniq0': uniq0, 'ops': ops}
 
 
 def corpus_cases():
@@ -287,7 +402,13 @@ def corpus_cases():
 
 
 # the counter-witness of C20_versions_are_history_full_FALSE, replayed on the real code on every run
-WITNESS = {'uniq0': False, 'ops': [('C', ((0, 1),)), ('A', 1, 1, BAD)]}
+WITNESS = {'mode': 'mem', 'uniq0': False, 'ops': [('C', ((0, 1),)), ('A', 1, 1, BAD)]}
+# the counter-witness of C20_restore_explicit_connection_full_FALSE
+WITNESS_CONN = {'mode': 'twodb', 'uniq0': False,
+                'ops': [(0, ('C', ((0, 1),))), (1, ('C', ((0, 10),))), (1, ('A', 1, 0, 11)), (1, ('R', 1))]}
+# the same call inside a transaction (the master is not visible to the default connection: SQLObjectNotFound)
+WITNESS_TX = {'mode': 'tx', 'uniq0': False, 'nomodel': True, 'ops': [('C', ((0, 5),)), ('A', 1, 0, 6), ('R', 1)]}
+CANON = {KEY_FAILED: WITNESS, KEY_RESTORE_CONN: WITNESS_CONN}
 
 
 def case_json(case):
@@ -297,34 +418,42 @@ def case_json(case):
 def run(ctx):
     env()
     rng = ctx.rng
-    cases = [WITNESS] + corpus_cases()
-    n = ctx.budget(700, 8000)
+    cases = [WITNESS, WITNESS_CONN, WITNESS_TX] + corpus_cases()
+    n = ctx.budget(560, 7000)
     for i in range(n):
-        cases.append(gen_case(rng, clean=(i % 2 == 0)))
+        mode = ('mem', 'mem', 'nocache', 'twodb')[i % 4]
+        cases.append(gen_case(rng, clean=(i % 3 != 2), mode=mode))
+    for i in range(ctx.budget(40, 400)):
+        cases.append(gen_case(rng, clean=(i % 3 != 2), mode='tx'))
     outs = ctx.model([line_of(c) for c in cases])
     for i, case in enumerate(cases):
         line = line_of(case)
+        mode = mode_of(case)
         fails = []
         results = run_case(case, oracle=lambda key, what, n: fails.append((key, what, n)))
         impl = fmt_results(results)
-        nver = len(results[-1][2]) if results else 0
-        ctx.case(line, nontrivial=nver >= 2, sample={'case': line, 'impl': impl[-300:]},
-                 kind='%s/%s' % ('unique' if case['uniq0'] else 'plain',
-                                 'failing-update' if any(r[0] in ('Invalid', 'TypeError', 'Duplicate') for r in results) else 'clean'))
+        nver = sum(len(st[1]) for st in results[-1][1]) if results else 0
+        ctx.case((mode, line), nontrivial=nver >= 2, sample={'case': mode + ': ' + line, 'impl': impl[-300:]},
+                 kind='%s/%s/%s' % (mode, 'unique' if case['uniq0'] else 'plain',
+                                    'failing-update' if any(r[0] in ('Invalid', 'TypeError', 'Duplicate') for r in results) else 'clean'))
         for r in results:
             ctx.count('out:' + r[0])
-        ctx.compare('master and version tables after every step = model', case_json(case),
-                    outs[i] if outs is not None else None, impl)
+        stream = {'mem': 'master and version tables after every step = model',
+                  'nocache': 'cache=False connection: tables after every step = model',
+                  'twodb': 'two databases (connection=): tables of both after every step = model',
+                  'tx': 'masters bound to a transaction: tables seen by the transaction = model'}[mode]
+        if not case.get('nomodel'):
+            ctx.compare(stream, case_json(case), outs[i] if outs is not None else None, impl)
         seen = set()
         for key, what, nstep in fails:
             if key in seen:
                 continue
             seen.add(key)
-            if key == KEY_FAILED:
-                # canonical (minimised) witness for the known finding
-                ctx.oracle_fail(key, what + ' | first seen in ' + line, case_json(WITNESS))
+            if key in CANON:
+                # canonical (minimised) witness for a known finding
+                ctx.oracle_fail(key, what + ' | first seen in ' + line, case_json(CANON[key]))
             else:
-                ctx.oracle_fail(key, what + ' | step %d of %s' % (nstep, line), case_json(case))
+                ctx.oracle_fail(key, what + ' | step %d of [%s] %s' % (nstep, mode, line), case_json(case))
 
 
 def replay(case):
